@@ -10,8 +10,8 @@ var (
 	bases     = []string{"http://example.com", "http://example.com", "http://example.com/api", "http://a.com:8080", ""}
 	templates = []string{"/users/:id", "/users/:id/posts/:pid", "/x/:idx/:id", "/x/:id/:idx", "/:a/:ab", "/plain", "/", "",
 		"/q?x=1&y=2", "/q?flag", "/q?x=1#frag", "/q?a=1&a=2&b=", "/multi?a=1?b=2", "/users/:id?x=:id", "/f/:id#:pid",
-		"/:id/:id", "/v/:missing/z", "/e/:id.json", "/p/:pid-:id"}
-	pathKeys  = []string{"id", "pid", "a", "ab", "idx", "missing", "other"}
+		"/:id/:id", "/v/:missing/z", "/e/:id.json", "/p/:pid-:id", "/api/v1/items:ext", "/d/:id/end", "/r/:pid"}
+	pathKeys  = []string{"id", "pid", "a", "ab", "idx", "missing", "other", "ext"}
 	safeVals  = []string{"42", "abc", "A-b_c.d~", "0", "x1", "user-7", "v2.1", "Z"}
 	riskyVals = []string{"a/b", "a?b", "a#b", "a%2Fb", "", "..", "a b", ":id", ":pid", "x:idx", "é", "a&b=c", "/", "."}
 	hdrNames  = []string{"X-A", "X-B", "X-Trace", "X-Api-Key"}
@@ -80,6 +80,14 @@ func genAsm(r *gen.Rand, i int, thorough bool) *asmCase {
 	}
 	for k := r.Intn(4); k > 0; k-- {
 		a.rP = append(a.rP, entry{gen.Pick(r, pathKeys), pv()})
+	}
+	// request level over client level also when the request's value is the EMPTY string: the same key on both
+	// levels, client value non-empty, request value "" (placeholder followed by a literal, inside and at the end
+	// of the path)
+	if r.Chance(1, 7) {
+		k := gen.Pick(r, []string{"id", "pid", "ext", "id", "idx"})
+		a.cP = append(a.cP, entry{k, gen.Pick(r, []string{".json", "c7", "Z", "v2.1"})})
+		a.rP = append(a.rP, entry{k, ""})
 	}
 	a.cH = genOps(r, hdrNames, hdrVals, 3)
 	a.rH = genOps(r, hdrNames, hdrVals, 3)
